@@ -294,3 +294,102 @@ def first_step_replay():
         return None, "", f"probe failed: {e}"
     bad = [m for m, r in d.items() if not r["ends_at_xend"]]
     return (True if bad else None), "probe firststep  (solve_ivp on [0,1] with first_step = 2.5, every method)", json.dumps(d)
+
+
+def bdf_judge(cfg, d):
+    """Facts of units_bdf re-stated on a native BDF trace (y' = cos t + y/2, written state 0.25)."""
+    import math
+    from . import replay_script as RS
+    x0, xend, h0, ms, mxs, flags, nmi, rtol, nan_at = cfg
+    out = []
+    if not d.get("ok"):
+        return out
+    eps = 2.0 ** -52
+    S = max(abs(x0), abs(xend))
+    slack = 4 * eps * S
+    cbs = [[float(v) for v in c] for c in d["callbacks"]]
+    # contiguity "to rounding" (BDF passes x - h as xold): judge() demands bit-equality, so patch it here
+    cbs2 = [list(c) for c in cbs]
+    for k in range(1, len(cbs2)):
+        if abs(cbs2[k][0] - cbs2[k - 1][1]) <= slack:
+            cbs2[k][0] = cbs2[k - 1][1]
+    d2 = dict(d, callbacks=cbs2)
+    out += RS.judge("BDF", (x0, xend, h0, ms, mxs, "A", flags), d2)
+    for k, bd in enumerate(d["bounds"]):
+        # interpolant k belongs to callback k+1
+        if k + 1 < len(cbs):
+            lo, hi = float(bd[0]), float(bd[1])
+            a, b = cbs[k][1], cbs[k + 1][1]
+            if abs(min(lo, hi) - min(a, b)) > slack or abs(max(lo, hi) - max(a, b)) > slack:
+                out.append(("protocol", f"interpolant of callback {k + 1} spans [{lo!r},{hi!r}], the accepted step is [{a!r},{b!r}]"))
+                break
+    ts = [float(v) for v in d["t"]]
+    ys = [float(v) for v in d["y"]]
+    dirn = 1.0 if xend > x0 else -1.0
+    for k, fl in enumerate(flags):
+        if fl == "I":
+            break
+        if fl == "M" and k < len(cbs):
+            i0 = d["calls_at_cb"][k]
+            # history restart: the first Newton evaluation of the next step is at the predictor y + h f(x, y)
+            if i0 + 1 < len(ts) and ts[i0] == cbs[k][1]:
+                x, y = cbs[k][1], 0.25
+                f0 = math.cos(x) + 0.5 * y
+                hs = ts[i0 + 1] - x
+                pred = y + hs * f0
+                if hs * dirn > 0 and abs(ys[i0 + 1] - pred) > 1e-9 * (1 + abs(pred)) + 1e-6 * abs(hs):
+                    out.append(("protocol", f"after ModifiedSolution at callback {k} the next step's predictor is y={ys[i0 + 1]!r}, expected y + h f = {pred!r} (h={hs!r})"))
+    return out
+
+
+def bdf_battery(backward):
+    spans = [(0.0, 1.0), (3.0, 3.75), (-1.0, 0.5)]
+    if backward:
+        spans = [(b, a) for a, b in spans]
+    for (x0, xend) in spans:
+        span = abs(xend - x0)
+        for h0 in (span / 8, span / 3, span, 2 * span, None):
+            for ms in (None, span / 2.5, span / 4):
+                if ms is not None and h0 is not None and h0 > ms:
+                    continue
+                for flags in ("C", "CM", "CCM", "CCCCM", "CI", "CCI", "M", "I", "CX", "CMCM"):
+                    for nmi, nan_at in ((4, 0), (1, 0), (4, 3), (4, 6), (2, 5)):
+                        for rtol in (1e-3, 1e-8):
+                            yield (x0, xend, h0, ms, 100000, flags, nmi, rtol, nan_at)
+
+
+def _bdf_kinds(failed):
+    want = set()
+    for f in failed:
+        d = f[0]
+        if "evals." in d or "steps." in d:
+            want.add("counters")
+        elif any(w in d for w in ("ModifiedSolution", "Interrupt", "xold", "interpolant", "callback count", "initial callback")):
+            want.update(("protocol", "status"))
+        elif "budget" in d:
+            want.update(("budget", "status"))
+        else:
+            want.update(("times", "status", "maxstep", "hang"))
+    return want
+
+
+def bdf_replay(backward, failed):
+    log = []
+    n = 0
+    want = _bdf_kinds(failed) if failed else None
+    for cfg in bdf_battery(backward):
+        x0, xend, h0, ms, mxs, flags, nmi, rtol, nan_at = cfg
+        try:
+            d = probe(["bdf", repr(x0), repr(xend), "none" if h0 is None else repr(h0), "none" if ms is None else repr(ms), mxs, flags, nmi, repr(rtol), nan_at], timeout=20)
+        except Exception as e:
+            log.append(f"probe failed for {cfg}: {str(e)[:100]}")
+            continue
+        n += 1
+        bad = [b for b in bdf_judge(cfg, d) if want is None or b[0] in want]
+        if bad:
+            k, desc = bad[0]
+            log.append(f"native violation [{k}] {desc}")
+            log.append(f"after {n} native runs")
+            return True, f"probe bdf {x0!r} {xend!r} {h0!r} {ms!r} {mxs} {flags} {nmi} {rtol!r} {nan_at}   (real BDF, y'=cos t + y/2, scripted callback; /verif/replay/src/main.rs)", "\n".join(log)
+    log.append(f"{n} native BDF runs: no native violation of kind {sorted(want) if want else 'any'}")
+    return None, "native BDF battery (rsym/replay.py bdf_battery)", "\n".join(log)
